@@ -316,6 +316,10 @@ class History:
             d = rng.choice(['alpha', 'beta', 'gamma', 'delta', 'alpha', f's{tag}'])
             if rng.random() < 0.06:
                 d = rng.choice(['..', '.', '../up', 'a/b', '/abs', 'x/../../y', ''])     # free text, as the API takes it
+            if rng.random() < 0.12 and streams:
+                # an existing directory again, with a body the insert will refuse (no title): the stream that
+                # holds the directory must survive
+                return G.op_add_stream(rng.choice(streams)['directory'], '')
             if rng.random() < 0.5:
                 op = G.op_add_stream(d, f'Stream {d} {tag}')
                 if rng.random() < 0.2:
@@ -470,6 +474,16 @@ class History:
                 info = env.rec.last_exception or {}
                 res.count('note:management-operation-5xx')
                 res.bucket('management_5xx', f'{op["name"]}: {info.get("type")}: {info.get("repr", "")[:80]}')
+            if isinstance(status, int) and 400 <= status < 500:
+                # "each deletion removes exactly the rows it owns": an operation that was refused owns nothing
+                lost = {name: d for name, d in diff['tables'].items()
+                        if name.lower() in ('stream', 'media_file', 'blob', 'key', 'mediafile_keys', 'mp_stream', 'period')
+                        and d['n_removed'] > d['n_added']}
+                if lost:
+                    res.violation(f'refused-operation-removed-rows-{op["name"]}',
+                                  f'{op["method"]} {op["url"]} -> {status}, yet rows are gone from '
+                                  f'{ {k: v["n_removed"] - v["n_added"] for k, v in lost.items()} } '
+                                  f'(e.g. {next(iter(lost.values()))["removed"][:1]})', rp)
             if op['name'] == 'upload' and changed and r is not None:
                 js = r.get_json(silent=True) or {}
                 w2 = self.world()
